@@ -15,7 +15,7 @@ def ess (ctx : Ctx) : Bool := decide (ctx ≠ .tap)
 
 mutual
 def noDis : Ms → Bool
-  | .tru | .after _ | .older _ | .verify _ | .nonZero _ | .orC _ _ => true
+  | .tru | .after _ | .older _ | .verify _ | .orC _ _ => true
   | .alt x | .swap x | .check x | .zeroNotEqual x => noDis x
   | .andB l r | .orB l r | .orD l r => noDis l || noDis r
   | .andV _ r => noDis r
@@ -73,7 +73,6 @@ theorem noDis_sound (c : SatCfg) : (ms : Ms) → noDis ms = true →
   | .after _, _ => by intro w; simp [satDissat, Sat.IMPOSSIBLE]
   | .older _, _ => by intro w; simp [satDissat, Sat.IMPOSSIBLE]
   | .verify _, _ => by intro w; simp [satDissat, Sat.IMPOSSIBLE]
-  | .nonZero _, _ => by intro w; simp [satDissat, Sat.IMPOSSIBLE]
   | .orC _ _, _ => by intro w; simp [satDissat, Sat.IMPOSSIBLE]
   | .alt x, h => by simp only [noDis] at h; simpa [satDissat] using noDis_sound c x h
   | .swap x, h => by simp only [noDis] at h; simpa [satDissat] using noDis_sound c x h
@@ -121,7 +120,7 @@ theorem noDis_sound (c : SatCfg) : (ms : Ms) → noDis ms = true →
     simp only [satDissat]
     obtain ⟨s, hs, hns⟩ := anyNoDis_sound c xs h
     exact foldl_concat_not_stack _ _ (.inr ⟨s, hs, hns⟩)
-  | .fls, h | .pkK _, h | .pkH _, h | .rawPkH _, h | .hash _ _, h | .dupIf _, h
+  | .fls, h | .pkK _, h | .pkH _, h | .rawPkH _, h | .hash _ _, h | .dupIf _, h | .nonZero _, h
   | .multi _ _, h | .sortedMulti _ _, h | .multiA _ _, h | .sortedMultiA _ _, h => by
     simp [noDis] at h
 theorem anyNoDis_sound (c : SatCfg) : (xs : MsList) → anyNoDis xs = true →
@@ -138,37 +137,43 @@ end
 
 /-! ### the hypotheses -/
 
-/-- the child's dissatisfaction either has a figure or is never produced -/
-def childOk (ke : KeyEnv) (ctx : Ctx) (x : Ms) : Bool := (extOf ke ctx x).dissatData.isSome || noDis x
-
-/-- `thresh`: the library derives a figure, and none of the first `k+1` differences is negative -/
-def threshGood (k : Nat) (exts : List ExtData) : Bool :=
-  (threshold k exts).satData.isSome && cutOkB k (·.wCount) (tv1 exts) && cutOkB k (·.wSize) (tv2 exts)
-    && cutOkB k (·.ssSize) (tv3 exts)
+mutual
+/-- "whenever the satisfier's DISSATISFACTION of this fragment is a stack, the library has a
+dissatisfaction figure bounding it".  Fails only below `and_v` (the satisfier builds
+`sat(l) ++ dissat(r)` for it while `ExtData::and_v` has `dissat_data: None`) unless the right
+child can never be dissatisfied. -/
+def disOK : Ms → Bool
+  | .andV _ r => noDis r
+  | .alt x | .swap x | .check x | .zeroNotEqual x => disOK x
+  | .andB l r | .orB l r | .orD l r | .orI l r => disOK l && disOK r
+  | .andOr a _ z => disOK a && disOK z
+  | .thresh _ xs => disOKs xs
+  | _ => true
+def disOKs : MsList → Bool
+  | .nil => true
+  | .cons x xs => disOK x && disOKs xs
+end
 
 mutual
 /-- Hypotheses of the bound theorem, fragment by fragment:
-* no `d:` wrapper (defect: `cast_dupif` counts +1 byte / +2 elements instead of +2 / +1);
-* `pk_h` keys are not longer than the library assumes (defect: uncompressed keys are pushed
-  with 66 bytes in Bare/Legacy, the library uses 65);
-* `multi_a` only in tapscript, with `k ≥ 1`;
-* `thresh`: `threshGood` (defect: the fold takes `k+1` satisfactions);
-* where a parent uses a child's dissatisfaction, that child has a dissatisfaction figure or
-  never produces one (implied by typing for the `d` children, apart from `and_v`). -/
+* `multi_a` only in tapscript (`check_global_consensus_validity` rejects it elsewhere; its
+  scriptSig figure is 0) and with `k ≥ 1` (`Threshold` invariant);
+* where a parent's SATISFACTION contains a child's dissatisfaction (`andor` first child, `or_b`
+  both, `or_d`/`or_c` left, every `thresh` child) that child is `disOK`; typing makes these
+  children `d`, which gives `disOK` except below `and_v` (see `disOK`);
+* every `thresh` child has a dissatisfaction figure (typing: thresh children are `d`). -/
 def good (ke : KeyEnv) (ctx : Ctx) : Ms → Bool
-  | .dupIf _ => false
-  | .pkH k => decide (pkLen ke ctx k ≤ (keySig ctx (isUnc ke k)).1)
   | .multiA k _ | .sortedMultiA k _ => decide (ctx = .tap) && decide (1 ≤ k)
-  | .alt x | .swap x | .check x | .verify x | .nonZero x | .zeroNotEqual x => good ke ctx x
-  | .andV l r | .andB l r => good ke ctx l && good ke ctx r
-  | .orB l r | .orI l r => good ke ctx l && good ke ctx r && childOk ke ctx l && childOk ke ctx r
-  | .orD l r | .orC l r => good ke ctx l && good ke ctx r && childOk ke ctx l
-  | .andOr a b z => good ke ctx a && good ke ctx b && good ke ctx z && childOk ke ctx a
-  | .thresh k xs => goods ke ctx xs && threshGood k (extsOf ke ctx xs)
+  | .alt x | .swap x | .check x | .dupIf x | .verify x | .nonZero x | .zeroNotEqual x => good ke ctx x
+  | .andV l r | .andB l r | .orI l r => good ke ctx l && good ke ctx r
+  | .orB l r => good ke ctx l && good ke ctx r && disOK l && disOK r
+  | .orD l r | .orC l r => good ke ctx l && good ke ctx r && disOK l
+  | .andOr a b z => good ke ctx a && good ke ctx b && good ke ctx z && disOK a
+  | .thresh _ xs => goods ke ctx xs
   | _ => true
 def goods (ke : KeyEnv) (ctx : Ctx) : MsList → Bool
   | .nil => true
-  | .cons x xs => good ke ctx x && childOk ke ctx x && goods ke ctx xs
+  | .cons x xs => good ke ctx x && disOK x && (extOf ke ctx x).dissatData.isSome && goods ke ctx xs
 end
 
 /-! ### figures of the leaves -/
@@ -217,14 +222,15 @@ theorem zipMap_isSome {f : SatData → SatData → SatData} {a b : Option SatDat
     (h : (zipMap f a b).isSome = true) : a.isSome = true ∧ b.isSome = true := by
   cases a <;> cases b <;> simp_all [zipMap]
 
-theorem dis_of_childOk {e : Bool} {c : SatCfg} {ke : KeyEnv} {ctx : Ctx} {x : Ms}
-    (hP : (extOf ke ctx x).dissatData.isSome = true →
-      SB e (satDissat c x).dissat (extOf ke ctx x).dissatData)
-    (hc : childOk ke ctx x = true) : SB e (satDissat c x).dissat (extOf ke ctx x).dissatData := by
-  simp only [childOk, Bool.or_eq_true] at hc
-  rcases hc with h | h
-  · exact hP h
-  · exact SB_of_not_stack (noDis_sound c x h)
+theorem pkLen_le_keySig (ke : KeyEnv) (ctx : Ctx) (k : Key) :
+    pkLen ke ctx k ≤ (keySig ctx (isUnc ke k)).1 := by
+  cases ctx <;> simp only [pkLen, keySig, Ctx.sigType, isUnc, beq_iff_eq] <;> (try split) <;> simp_all
+
+theorem dupIf_push (x : SatData) :
+    x.wCount + [Ph.pushOne].length ≤ (⟨x.wSize + 2, x.wCount + 1, x.ssSize + 1, max 1 x.execStack, x.execOps⟩ : SatData).wCount
+    ∧ x.wSize + wsz [Ph.pushOne] ≤ (⟨x.wSize + 2, x.wCount + 1, x.ssSize + 1, max 1 x.execStack, x.execOps⟩ : SatData).wSize
+    ∧ x.ssSize + wss [Ph.pushOne] ≤ (⟨x.wSize + 2, x.wCount + 1, x.ssSize + 1, max 1 x.execStack, x.execOps⟩ : SatData).ssSize := by
+  simp [Ph.size, phSs]
 
 theorem with1_push (x : SatData) : x.wCount + [Ph.pushOne].length ≤ (with1 x).wCount
     ∧ x.wSize + wsz [Ph.pushOne] ≤ (with1 x).wSize ∧ x.ssSize + wss [Ph.pushOne] ≤ (with1 x).ssSize := by
@@ -243,7 +249,7 @@ variable (ke : KeyEnv) (ctx : Ctx) (mall rhs : Bool) (a : Assets) (ha : AssetsOk
 /-- the statement proved for every fragment -/
 def P (ms : Ms) : Prop :=
   SB (ess ctx) (satDissat ⟨ke, ctx, mall, rhs, a⟩ ms).sat (extOf ke ctx ms).satData
-  ∧ ((extOf ke ctx ms).dissatData.isSome = true →
+  ∧ (disOK ms = true →
       SB (ess ctx) (satDissat ⟨ke, ctx, mall, rhs, a⟩ ms).dissat (extOf ke ctx ms).dissatData)
 
 end main
